@@ -1006,6 +1006,47 @@ static bool runCase(const SCase& c, bool exact = false) {
 
 static void addField(SCase& c, int w, uint32_t v) { c.f[c.n].w = w; c.f[c.n].v = v; ++c.n; }
 
+
+// long streams: cursors around every 256-byte boundary and at the end of buffers of more than 2048 bits (byte indices that do not
+// fit 8 bits). One field of every width 1..32 plus a 7-bit sentinel, written by a writer constructed at the start cursor (the
+// constructor clears the buffer), read back by a reader constructed at the same cursor; nothing outside the fields may be set.
+template <Long Cap>
+static void longStream() {
+	typedef StreamRt<Cap> R;
+	static typename R::Buf* heap = new (std::malloc(sizeof(typename R::Buf))) typename R::Buf;
+	typename R::Buf& b = *heap;
+	const unsigned bytes = R::BYTES;
+	std::vector<long> starts;
+	for (long base = 2048; base <= (long) Cap; base += 2048)
+		for (long d = -40; d <= 8; ++d) if (base + d >= 0 && base + d + 39 <= (long) Cap) starts.push_back(base + d);
+	for (long d = 39; d <= 39 + 16; ++d) if ((long) Cap - d >= 0) starts.push_back((long) Cap - d);
+	for (size_t si = 0; si < starts.size(); ++si)
+		for (int W = 1; W <= 32; ++W)
+			for (int pat = 0; pat < 2; ++pat) {
+				SCase c; c.mode = "long-stream"; c.start = (int) starts[si]; c.n = 0;
+				addField(c, W, (pat ? 0xA5A5A5A5u : 0xFFFFFFFFu) & ones(W));
+				addField(c, 7, 0x55);
+				std::memset(b.data(), 0xA5, bytes);
+				typename R::WS ws(b, (Long) c.start);
+				R::write(ws, c.f[0].w, c.f[0].v);
+				R::write(ws, c.f[1].w, c.f[1].v);
+				const long end = c.start + W + 7;
+				++g_streamTrips; g_eval += 4; g_streamEvals += 4;
+				uint64_t h = ckey(6, (uint64_t) Cap, (uint64_t) c.start, (uint64_t) W, (uint64_t) pat); nontrivial(h);
+				if ((long) ws.cursor() != end) streamFail("write-cursor", "after two writes the cursor is " + vt::str((long) ws.cursor()) + ", expected " + vt::str(end), c, Cap);
+				for (long bit = 0; bit < 8L * bytes; ++bit)
+					if ((bit < c.start || bit >= end) && bitOf(b.data(), bit)) {
+						streamFail(bit < c.start ? "write-before" : "write-beyond", "bit " + vt::str(bit) + " outside the written range [" + vt::str((long) c.start) + "," + vt::str(end) + ") is set in a buffer the writer cleared", c, Cap);
+						break;
+					}
+				typename R::RS rs(b, (Long) c.start);
+				const uint32_t v0 = R::read(rs, W), v1 = R::read(rs, 7);
+				if (v0 != c.f[0].v || v1 != c.f[1].v)
+					streamFail("roundtrip", "fields read back as " + vt::str(v0) + "," + vt::str(v1), c, Cap);
+				if ((long) rs.cursor() != end) streamFail("read-cursor", "after two reads the cursor is " + vt::str((long) rs.cursor()) + ", expected " + vt::str(end), c, Cap);
+			}
+}
+
 static void streams() {
 	FillCap<1>::go();
 	std::vector<uint32_t> vals, v1s, v2s;
@@ -1096,6 +1137,10 @@ static void streams() {
 		checkAsserts("stream", "{\"phase\":\"triples\"}");
 		printf("{\"type\":\"sub\",\"object\":\"stream triples\",\"roundtrips\":%ld}\n", g_streamTrips);
 	}
+	longStream<2048>(); longStream<2100>(); longStream<4096>(); longStream<8200>();
+	if (g_thorough) { longStream<32768>(); longStream<65528>(); longStream<65535>(); }
+	checkAsserts("stream", "{\"phase\":\"long\"}");
+	printf("{\"type\":\"sub\",\"object\":\"long streams\",\"roundtrips\":%ld}\n", g_streamTrips);
 }
 
 // ---- buffer comparison / clear ---------------------------------------------------------------------------------------
